@@ -35,11 +35,14 @@ class C14(Pipeline):
           ("RelayGate_mc", "RelayGate_gate", ("quick", "thorough")),
           ("RelayGate_mc", "RelayGate_gate3", ("thorough",)),
           ("RelayGate_mc", "RelayGate_dyn", ("quick", "thorough")),
+          ("RelayGate_mc", "RelayGate_retry", ("quick", "thorough")),
           ("RelayGate_mc", "RelayGate_assign_big", ("thorough",)),
           ("RelayGate_mc", "RelayGate_gate_big", ("thorough",))]
     gens = [Gen("RelayGateGen", "RelayGateGen_assign_cover", "bfs", tiers=("quick",), timeout=300),
             Gen("RelayGateGen", "RelayGateGen_gate_cover", "bfs", tiers=("quick",), timeout=300),
-            Gen("RelayGateGen", "RelayGateGen_sim", "simulate", num=250, depth=14, tiers=("quick",), timeout=300),
+            Gen("RelayGateGen", "RelayGateGen_retry_cover", "bfs", tiers=("quick", "thorough"), timeout=300),
+            Gen("RelayGateGen", "RelayGateGen_fees_cover", "bfs", tiers=("quick", "thorough"), timeout=300),
+            Gen("RelayGateGen", "RelayGateGen_sim", "simulate", num=200, depth=14, tiers=("quick",), timeout=300),
             Gen("RelayGateGen", "RelayGateGen_assign_cover_big", "bfs", tiers=("thorough",), timeout=900),
             Gen("RelayGateGen", "RelayGateGen_gate_cover_big", "bfs", tiers=("thorough",), timeout=900),
             Gen("RelayGateGen", "RelayGateGen_sim", "simulate", num=1200, depth=14, tiers=("thorough",), timeout=1200)]
@@ -47,7 +50,7 @@ class C14(Pipeline):
     driver_test = "TestDriveRelayGate"
     trace_module = "RelayGateTrace"
     trace_cfg = "RelayGateTrace"
-    quick_cap = 7000
+    quick_cap = 8000
     thorough_cap = 15000
     min_histories = 200
     assumptions = [
@@ -142,6 +145,36 @@ class C14(Pipeline):
         if crossed < 50:
             raise vk.Broken("vacuous trace: only %d MEV requests facing a validator whose trait sits on its other chain account" % crossed)
         self._crossed = crossed
+        # retries after an attested relay failure: enqueued / dropped because nobody qualifies for a MEV-enforcing call;
+        # one validator elected on both chains in ONE end block while its two multiplicators differ
+        prev, retried, mevdropped, twochain = None, 0, 0, 0
+        for e in events:
+            if prev is not None and prev["h"] == e["h"]:
+                po, o = prev["obs"], e["obs"]
+                if e["act"] == "EndBlockAtt":
+                    old = {m["id"] for m in po["queue"] + po["queueh"]}
+                    now = {m["id"] for m in o["queue"] + o["queueh"]}
+                    new = [m for m in o["queue"] + o["queueh"] if m["id"] not in old]
+                    due = [m for m in po["queue"] + po["queueh"] if m["id"] not in now and m["kind"] == "slc" and m["retries"] < 2]
+                    retried += len(new)
+                    if len(due) > len(new) and any(m["mev"] for m in due):
+                        mevdropped += 1
+                if e["act"] == "EndBlock":
+                    el = set()
+                    for key in ("queue", "queueh"):
+                        pm = {m["id"]: m for m in po[key]}
+                        for m in o[key]:
+                            if m["kind"] == "slc" and m["est"] > 0 and m["assignee"] and pm.get(m["id"], {"est": 1})["est"] == 0:
+                                el.add((key, m["assignee"]))
+                    for a in {x[1] for x in el}:
+                        if {k for k, x in el if x == a} == {"queue", "queueh"} and po["fee"][a - 1] != po["feeh"][a - 1]:
+                            twochain += 1
+            prev = e
+        if retried < 100 or mevdropped < 10 or twochain < 8:
+            raise vk.Broken("vacuous trace: %d retries enqueued, %d MEV retries dropped for lack of a qualifying validator, "
+                            "%d same-block elections of one validator on both chains with different multiplicators" % (retried, mevdropped, twochain))
+        self._retry_stats = {"retries_enqueued": retried, "mev_retries_dropped_no_qualifying_validator": mevdropped,
+                             "same_block_two_chain_elections_with_different_multiplicators": twochain}
         need = {"Assign:assigned": 50, "Estimate:ok": 50, "Estimate:fail": 5, "Deliver:ok": 20, "Query:query": 100}
         for k, n in need.items():
             if c.get(k, 0) < n:
@@ -228,8 +261,48 @@ class C14(Pipeline):
             v = self.validate(c)
             res["trait_on_other_chain_rejected"] = any(n == "C14.AssigneeEligible" for n, _, _ in v.monfail)
             break
+        # 6) a retried MEV-enforcing call whose new assignee does not carry the trait on that chain
+        for h, evs in byh.items():
+            hit = None
+            for a in evs:
+                if a["act"] != "EndBlockAtt" or a["i"] < 2:
+                    continue
+                prev = next(e for e in evs if e["i"] == a["i"] - 1)
+                for key in ("queue", "queueh"):
+                    old = {m["id"] for m in prev["obs"]["queue"] + prev["obs"]["queueh"]}
+                    for m in a["obs"][key]:
+                        if m["id"] not in old and m["mev"] and m["assignee"]:
+                            hit = (a["i"], key, m["assignee"])
+            if hit is None:
+                continue
+            c = copy.deepcopy(evs)
+            prev = next(e for e in c if e["i"] == hit[0] - 1)
+            prev["obs"]["snap"][hit[2] - 1]["mevT" if hit[1] == "queue" else "mevH"] = False
+            v = self.validate(c)
+            res["retry_to_non_mev_rejected"] = any(n == "C14.AssigneeEligible" for n, _, _ in v.monfail)
+            break
+        # 7) fees of a home chain message computed with the assignee's TARGET chain multiplicator
+        for h, evs in byh.items():
+            hit = None
+            for a in evs:
+                if a["act"] != "EndBlock" or a["i"] < 2:
+                    continue
+                prev = next(e for e in evs if e["i"] == a["i"] - 1)
+                pm = {m["id"]: m for m in prev["obs"]["queueh"]}
+                for m in a["obs"]["queueh"]:
+                    if m["kind"] == "slc" and m["est"] > 0 and m["assignee"] and pm.get(m["id"], {"est": 1})["est"] == 0 \
+                            and prev["obs"]["fee"][m["assignee"] - 1] not in (0, prev["obs"]["feeh"][m["assignee"] - 1]):
+                        hit = (a["i"], m["assignee"])
+            if hit is None:
+                continue
+            c = copy.deepcopy(evs)
+            prev = next(e for e in c if e["i"] == hit[0] - 1)
+            prev["obs"]["feeh"][hit[1] - 1] = prev["obs"]["fee"][hit[1] - 1]
+            v = self.validate(c)
+            res["other_chain_multiplicator_rejected"] = any(n == "C14.FeesCeil" for n, _, _ in v.monfail)
+            break
         want = ("foreign_offer_rejected", "wrong_relayer_address_rejected", "dropped_event_rejected", "floored_fee_rejected",
-                "trait_on_other_chain_rejected")
+                "trait_on_other_chain_rejected", "retry_to_non_mev_rejected", "other_chain_multiplicator_rejected")
         res["ok"] = all(res.get(k) for k in want)
         return res
 
@@ -349,6 +422,7 @@ class C14(Pipeline):
     def extra_coverage(self, tier):
         self._fee = self.fee_check(tier)
         cov = {"mev_requests_with_trait_on_other_chain_account": getattr(self, "_crossed", 0),
+               "retry_and_two_chain_fee_coverage": getattr(self, "_retry_stats", {}),
                "fee_samples_apalache": {k: v for k, v in self._fee.items() if k != "not_reproduced"},
                "fee_samples_not_reproduced": self._fee["not_reproduced"][:10]}
         panics = getattr(self, "_panics", [])
